@@ -81,7 +81,8 @@ def work(desc: dict) -> Optional[dict]:
             'pf11': sorted(pf11_channels(pt, cm_full)),
             'drops': any(v is None for v in cm_full.values()) or _has_drop(case['spec'])}
     return {'case': ptgen.case_json(case), 'impl': obs['impl'], 'grid': obs['grid'], 'line': line, 'meta': meta,
-            'family': desc['family'], 'label': desc.get('label', desc['family'])}
+            'family': desc['family'], 'label': desc.get('label', desc['family']),
+            'toleranced': bool(desc.get('toleranced')) or desc.get('stream') == 'decimal' or desc.get('label') == 'huge-counts'}
 
 
 def _has_drop(spec) -> bool:
@@ -288,7 +289,7 @@ def judge_tdur(rec: dict, reply: dict, exact=True) -> List[dict]:
 def run_descs(ctx: core.Ctx, descs: List[dict], workers: Optional[int] = None) -> List[dict]:
     """observe all cases (in worker processes), ask the model, attach the parsed reply"""
     if workers is None:
-        workers = int(os.environ.get('VERIF_WORKERS', '0')) or (4 if ctx.quick else 14)
+        workers = int(os.environ.get('VERIF_WORKERS', '0')) or (6 if ctx.quick else 14)
     workers = max(1, min(workers, len(descs) // 8 or 1))
     if workers > 1:
         mp = multiprocessing.get_context('fork')
@@ -304,7 +305,8 @@ def run_descs(ctx: core.Ctx, descs: List[dict], workers: Optional[int] = None) -
 
 
 def replay_record(rec: dict, what: str, extra: Optional[dict] = None) -> dict:
-    d = {'kind': 'pt-case', 'case': rec['case'], 'grid': [str(t) for t in rec['grid']], 'label': rec.get('label')}
+    d = {'kind': 'pt-case', 'case': rec['case'], 'grid': [str(t) for t in rec['grid']], 'label': rec.get('label'),
+         'toleranced': bool(rec.get('toleranced'))}
     if extra:
         d.update(extra)
     return d
@@ -312,3 +314,293 @@ def replay_record(rec: dict, what: str, extra: Optional[dict] = None) -> dict:
 
 def case_key(rec: dict) -> str:
     return rec['line']
+
+
+# ------------------------------------------------------------------------------------------------
+# the generic check driver
+# ------------------------------------------------------------------------------------------------
+
+import copy
+
+
+def spec_candidates(spec):
+    """smaller spec trees: replace a node by one of its children, drop sequence parts, drop decorations"""
+    out = []
+
+    def rec(node, rebuild):
+        for c in ptgen.children(node):
+            out.append(rebuild(copy.deepcopy(c)))
+        k = node['k']
+        if k == 'seq' and len(node['subs']) > 1:
+            for i in range(len(node['subs'])):
+                n = copy.deepcopy(node)
+                del n['subs'][i]
+                out.append(rebuild(n))
+        for key in ('meas', 'cons'):
+            if node.get(key):
+                n = copy.deepcopy(node)
+                n[key] = []
+                out.append(rebuild(n))
+            if node.get(key) and len(node[key]) > 1:
+                for i in range(len(node[key])):
+                    n = copy.deepcopy(node)
+                    del n[key][i]
+                    out.append(rebuild(n))
+        if k == 'rep' and node['count'] not in ('1', '2'):
+            for cnt in ('1', '2'):
+                n = copy.deepcopy(node)
+                n['count'] = cnt
+                out.append(rebuild(n))
+        if k == 'for' and node['range'] != ['0', '2', '1']:
+            n = copy.deepcopy(node)
+            n['range'] = ['0', '2', '1']
+            out.append(rebuild(n))
+        if k == 'table':
+            for ci, (ch, es) in enumerate(node['entries']):
+                if len(es) > 2:
+                    for i in range(len(es)):
+                        n = copy.deepcopy(node)
+                        del n['entries'][ci][1][i]
+                        out.append(rebuild(n))
+        if k == 'map':
+            for key in ('pm', 'mm'):
+                if node.get(key):
+                    n = copy.deepcopy(node)
+                    n[key] = None
+                    out.append(rebuild(n))
+        if k in ('seq', 'amulti'):
+            for i, c in enumerate(node['subs']):
+                def rb(x, i=i, node=node):
+                    n = copy.deepcopy(node)
+                    n['subs'][i] = x
+                    return rebuild(n)
+                rec(c, rb)
+        elif k == 'aarith':
+            for key in ('lhs', 'rhs'):
+                def rb(x, key=key, node=node):
+                    n = copy.deepcopy(node)
+                    n[key] = x
+                    return rebuild(n)
+                rec(node[key], rb)
+        elif 'body' in node:
+            def rb(x, node=node):
+                n = copy.deepcopy(node)
+                n['body'] = x
+                return rebuild(n)
+            rec(node['body'], rb)
+
+    rec(spec, lambda x: x)
+    return out
+
+
+class Checker:
+    """One property check over pulse-template cases: evaluate, diff against the model, judge against the
+    spec, classify known findings, shrink violating inputs, report."""
+
+    def __init__(self, ctx: core.Ctx, pid: str, aspects, correspondence: str,
+                 want_samples=True, want_windows=True, tdur_exact=True, known_classes=None):
+        self.ctx = ctx
+        self.pid = pid
+        self.aspects = tuple(aspects)
+        self.correspondence = correspondence
+        self.want_samples = want_samples
+        self.want_windows = want_windows
+        self.tdur_exact = tdur_exact
+        # finding id -> predicate(rec, violation) -> bool  (is this violation inside the recorded class?)
+        self.known_classes = known_classes or {}
+        self.open_ids = {k.get('finding') for k in ctx.findings.for_property(pid)}
+
+    # -- descriptors -------------------------------------------------------------------------------
+    def desc(self, **kw):
+        d = {'pid': self.pid, 'samples': self.want_samples, 'windows': self.want_windows}
+        d.update(kw)
+        return d
+
+    # -- one record --------------------------------------------------------------------------------
+    def assess(self, rec, count=True):
+        ctx = self.ctx
+        reply, impl = rec['reply'], rec['impl']
+        diffs = diff_model(impl, reply['model'], reply['tdur'], self.aspects)
+        viols = judge(rec, reply, self.aspects)
+        if 'durations' in self.aspects:
+            exact = self.tdur_exact and not rec.get('toleranced')
+            viols += judge_tdur(rec, reply, exact=exact)
+            # the model of the template's duration expression against the real expression (correspondence)
+            mt, it = reply['tdur'], impl['tdur']
+            if mt[0] != it[0]:
+                # evaluating the symbolic duration of a malformed input may fail in sympy-specific ways (zoo, plain
+                # dict lookups): its error class is not an observable of the property
+                if not rec['case'].get('fault'):
+                    diffs.append('template duration: impl %s, model %s' % (it[:2], mt))
+            elif mt[0] == 'ok':
+                if exact and mt[1] not in (it[1], it[2]):
+                    diffs.append('template duration: impl %s, model %s' % (it[1], mt[1]))
+                elif not exact and abs(mt[1] - it[2]) > max(abs(mt[1]), F(1)) * F(1, 2 ** 40):
+                    diffs.append('template duration: impl %s, model %s' % (it[2], mt[1]))
+            # Lean's exact template duration is the spec value of the program duration
+            if mt[0] == 'ok' and impl['status'] != 'error' and rec['meta']['keep']:
+                pd = impl['dur'] if impl['status'] == 'ok' else F(0)
+                if pd != mt[1] and not any(v['clause'] == 'template-duration' for v in viols):
+                    viols.append({'clause': 'template-duration-exact',
+                                  'what': 'the program lasts %s, the exact value of the template duration is %s' % (pd, mt[1])})
+        known = []
+        if viols:
+            rest = []
+            for v in viols:
+                hit = None
+                for fid, pred in self.known_classes.items():
+                    if fid in self.open_ids and pred(rec, v):
+                        hit = fid
+                        break
+                if hit:
+                    known.append((hit, v))
+                else:
+                    rest.append(v)
+            viols = rest
+        if count:
+            ctx.case(rec['line'], nontrivial=impl['status'] == 'ok' and len(rec['meta']['kinds']) > 1)
+            ctx.count('family:' + rec['label'])
+            ctx.count('impl:' + impl['status'] + (':' + impl['error'] if impl['status'] == 'error' else ''))
+            st = reply['spec']['status']
+            ctx.count('spec:' + st + (':' + reply['spec']['error'] if st == 'error' else ''))
+            for k in set(rec['meta']['kinds']):
+                ctx.count('kind:' + k)
+            ctx.count('depth:%d' % rec['meta']['depth'])
+            if rec['case'].get('fault'):
+                ctx.count('fault:' + rec['case']['fault'])
+            if impl['status'] == 'ok':
+                if 'samples' in self.aspects:
+                    ctx.count('grid-points', len(rec['grid']) * (len(impl['chans']) if isinstance(impl['chans'], list) else 0))
+                    if st == 'ok':
+                        amb = sum(1 for vals in reply['spec'].get('adm', {}).values() for pv in vals if len(pv) > 1)
+                        if amb:
+                            ctx.count('grid-points-at-junction-inside-reversal', amb)
+                if 'windows' in self.aspects and isinstance(impl.get('windows'), list):
+                    ctx.count('windows', len(impl['windows']))
+                    if impl['windows']:
+                        ctx.count('programs-with-windows')
+                if rec['meta']['drops']:
+                    ctx.count('with-dropped-channel')
+                if not rec['meta']['keep']:
+                    ctx.count('some-atom-lost-all-channels')
+            if impl['status'] == 'ok' and st == 'error':
+                ctx.count('spec-undefined-but-instantiated')
+        return diffs, viols, known
+
+    def summary(self, rec) -> str:
+        return 'kinds=%s params=%s cm=%s mm=%s' % ('/'.join(rec['meta']['kinds']), rec['case']['params'],
+                                                  rec['case']['cm'], rec['case']['mm'])
+
+    def report(self, rec, diffs, viols, known):
+        ctx = self.ctx
+        for fid, v in known[:1]:
+            # one line per finding and run (plus the recorded witness); further hits are only counted
+            if not ctx.extra.get('printed:' + fid):
+                ctx.extra['printed:' + fid] = True
+                ctx.known_finding(fid, v['what'])
+            ctx.count('known:' + fid)
+        if viols:
+            ctx.disagreements += 1
+            n_shrunk = ctx.extra.setdefault('shrunk', 0)
+            small = rec
+            if n_shrunk < 4:
+                ctx.extra['shrunk'] = n_shrunk + 1
+                small = self.shrink(rec, viols[0])
+            ctx.violation('%s [%s]' % (viols[0]['what'], self.summary(small)),
+                          replay_record(small, viols[0]['what'], {'clause': viols[0]['clause'], 'original': rec['case']}))
+        elif diffs:
+            ctx.drift(self.correspondence, rec['case'], diffs[:3], 'QP.PT')
+
+    # -- search ------------------------------------------------------------------------------------
+    def evaluate_given(self, cases, label='search', **kw):
+        recs = []
+        for i, c in enumerate(cases):
+            try:
+                r = work(self.desc(family='given', seed=i, case=c, label=label, **kw))
+            except core.MachineryError:
+                raise
+            except Exception:  # noqa -- a candidate that cannot be constructed
+                r = None
+            if r is not None:
+                recs.append(r)
+        if not recs:
+            return []
+        for r, a in zip(recs, core.Lean.run([r['line'] for r in recs])):
+            r['reply'] = ptgen.parse_reply(a)
+        return recs
+
+    def shrink(self, rec, viol, rounds=8):
+        """delta debugging on the spec tree; a candidate is kept if the judge reports the same clause"""
+        best = rec
+        for _ in range(rounds):
+            cases = []
+            for s in spec_candidates(best['case']['spec'])[:80]:
+                c = copy.deepcopy(best['case'])
+                c['spec'] = s
+                cases.append(c)
+            if best['case']['cm']:
+                cases.append(dict(copy.deepcopy(best['case']), cm={}))
+            if best['case']['mm'] is not None:
+                cases.append(dict(copy.deepcopy(best['case']), mm=None))
+            progressed = False
+            for r in self.evaluate_given(cases):
+                _d, vs, _k = self.assess(r, count=False)
+                if any(v['clause'] == viol['clause'] for v in vs) and len(r['line']) < len(best['line']):
+                    best = r
+                    progressed = True
+                    break
+            if not progressed:
+                break
+        return best
+
+    # -- batches -----------------------------------------------------------------------------------
+    def run_batch(self, descs):
+        recs = run_descs(self.ctx, descs)
+        for rec in recs:
+            diffs, viols, known = self.assess(rec)
+            if diffs or viols or known:
+                self.report(rec, diffs, viols, known)
+        return recs
+
+    def replay_known(self):
+        """the recorded witness of every open known finding is replayed on the implementation"""
+        ctx = self.ctx
+        for kf in ctx.findings.for_property(self.pid):
+            w = kf.get('witness')
+            if not w:
+                continue
+            for r in self.evaluate_given([w], label='known-finding'):
+                _d, viols, known = self.assess(r, count=False)
+                if known:
+                    ctx.known_finding(kf['finding'], '%s: %s' % (kf.get('what', ''), known[0][1]['what']))
+                elif viols:
+                    ctx.violation('known-finding witness violates outside the recorded class: %s' % viols[0]['what'],
+                                  replay_record(r, viols[0]['what']))
+                else:
+                    ctx.count('known-finding-witness-no-longer-fails:' + kf['finding'])
+
+    def replay(self, rec: dict, from_corpus=False) -> bool:
+        ctx = self.ctx
+        case = rec.get('case')
+        if case is None:
+            return True
+        kw = {}
+        if rec.get('grid'):
+            kw['grid'] = [F(t) for t in rec['grid']]
+        if rec.get('toleranced'):
+            kw['toleranced'] = True
+        if rec.get('skip_spec'):
+            kw['skip_spec'] = True
+        recs = self.evaluate_given([case], label='corpus' if from_corpus else 'replay', **kw)
+        ok = True
+        for r in recs:
+            r['toleranced'] = bool(rec.get('toleranced'))
+            diffs, viols, known = self.assess(r, count=from_corpus)
+            for fid, v in known[:1]:
+                ctx.known_finding(fid, v['what'])
+            if viols:
+                ctx.violation('%s [%s]' % (viols[0]['what'], self.summary(r)), replay_record(r, viols[0]['what']))
+                ok = False
+            elif diffs:
+                ctx.drift(self.correspondence + ' (replayed case)', case, diffs[:3], 'QP.PT')
+        return ok
